@@ -43,10 +43,12 @@ def c03_cases(spec, gen, rng, n_random):
         for p, fn in (("c", f["initFn"]), ("l", (f.get("legacy") or {}).get("initFn"))):
             if fn:
                 b = bytes(rng.getrandbits(8) for _ in range(L))
-                arg = " 7" if (p == "l" and f["legacy"]["initArg"]) else ""
-                # extent only (ASan); the resulting bytes are C04's subject
-                cs.add(["buf a " + hexs(b), "init a 0 %s %s%s" % (f["name"], p, arg)],
-                       {"fmt": f["name"], "what": "init:" + fn})
+                # extent only (ASan); the resulting bytes are C04's subject.  A parameterised legacy
+                # initialiser is run for every small argument value and a few large ones.
+                args = [" %d" % v for v in (list(range(0, 9)) + [7, 255, 256])] if (p == "l" and f["legacy"]["initArg"]) else [""]
+                for arg in args:
+                    cs.add(["buf a " + hexs(b), "init a 0 %s %s%s" % (f["name"], p, arg)],
+                           {"fmt": f["name"], "what": "init:" + fn})
     return cs
 
 
